@@ -332,10 +332,16 @@ def _run_scalar(case, ctx):
                 _check_result(ctx, spops.OPNAME[name], name, res2, want2, "scalar:after_growth", sub, "scalar", a2, c)
 
 
-def _grown(S, a):
-    """depth 2: the same object after an assignment beyond its extent (every mode one longer, the new corner = 5)."""
+def _grown(S, a, how="element"):
+    """depth 2: the same object after an assignment beyond its extent (every mode one longer, the new corner = 5),
+    either by one element or by a one-cell sparse right-hand side over the region at that corner."""
     new = tuple(x for x in a.shape)
-    S[new] = 5.0
+    if how == "element":
+        S[new] = 5.0
+    else:
+        import pyttb as ttb
+        one = ttb.sptensor(np.zeros((1, a.ndim), dtype=int), np.array([[5.0]]), tuple(1 for _ in new))
+        S[tuple(slice(x, x + 1) for x in new)] = one
     a2 = np.zeros(tuple(x + 1 for x in a.shape))
     a2[tuple(slice(0, x) for x in a.shape)] = a
     a2[new] = 5.0
@@ -374,11 +380,16 @@ def _run_unary(case, ctx):
         if not ldt:
             # depth 2: the operation again on the same object after it has grown (nothing the first call derived from
             # the old extent may be reused)
-            ctx.tick()
-            try:
-                a2 = _grown(S, a)
-                res2 = apply(S)
-            except Exception as e:  # noqa: BLE001
-                ctx.fail(opname, exc_symptom(e), short_tb(e), variant="after_growth", case=sub)
-                continue
-            _check_result(ctx, opname, name, res2, np.asarray(ref(a2), dtype=float), "after_growth", sub, "unary", a2, None)
+            for how in ("element", "sparse_rhs"):
+                ctx.tick()
+                try:
+                    S2 = S if how == "element" else _build_sp(shape, A, None, ldt)
+                    if how != "element":
+                        apply(S2)
+                    a2 = _grown(S2, a, how)
+                    res2 = apply(S2)
+                except Exception as e:  # noqa: BLE001
+                    ctx.fail(opname, exc_symptom(e), short_tb(e), variant="after_growth:" + how, case=sub)
+                    continue
+                _check_result(ctx, opname, name, res2, np.asarray(ref(a2), dtype=float), "after_growth:" + how, sub, "unary",
+                              a2, None)
